@@ -379,7 +379,7 @@ pub fn run(tier: Tier) -> Report {
                         let clean = r.violations.is_empty();
                         rep.merge(r);
                         if clean && n % 4099 == 0 {
-                            crate::engine::validate_case(&mut rep, replay, json!({"kind": "ops", "n": n.to_string(), "ops": [["direct", (n.saturating_sub(1)).to_string()], ["write", 1, 1], ["write", 0, 0]]}));
+                            crate::engine::validate_case(&mut rep, replay, json!({"kind": "ops", "n": n.to_string(), "ops": [["write", 1, 1]]}));
                         }
                     }
                     Err(p) => rep.violation(Violation {
